@@ -1852,6 +1852,7 @@ func (m *repoManager) newVersion(parent dvid.UUID, note string, branchname strin
 		r.RUnlock()
 	}
 
+	dvid.VerifPoint("datastore.newVersion", uint64(v))
 	// Add the child node.  Since it's new and unavailable, no need to lock it.
 	childUUID, childV, err := m.newUUID(assign)
 	if err != nil {
@@ -2858,6 +2859,7 @@ func (r *repoT) newMutationID() (mutID uint64) {
 	var ctx storage.MetadataContext
 	r.mutMu.Lock()
 	mutID = r.mutCurID
+	dvid.VerifPoint("datastore.newMutationID", mutID)
 	r.mutCurID++
 	if r.mutCurID >= r.mutSavedID {
 		r.mutSavedID += StrideMutationID
